@@ -443,6 +443,9 @@ func (w *worker) judge(sp *streamSpec, a *analysis, bounds []boundary, eofData b
 		}
 		return
 	}
+	if res.resets > 0 {
+		w.events["buffer_emptied_inside_read_in_fitting_case"] += res.resets // self-check of the exemption rule: expected 0
+	}
 	flushes := w.flBuf[:0]
 	for _, b := range bounds {
 		for k := 0; k < b.flush; k++ {
